@@ -28,10 +28,12 @@ fn rename(text: &str, rng: &mut Rng) -> (String, HashMap<String, String>) {
         let t = lexed.text(i);
         if lexed.kind(i) == oq3_parser::SyntaxKind::IDENT && !RESERVED.contains(&t) {
             let n = map.len();
-            let new = map.entry(t.to_string()).or_insert_with(|| match salt % 3 {
+            let new = map.entry(t.to_string()).or_insert_with(|| match salt % 4 {
                 0 => format!("{t}_r{salt}"),
                 1 => format!("n{salt}_{n}"),
-                _ => format!("Z{n}{t}"),
+                2 => format!("Z{n}{t}"),
+                // characters that may continue an identifier but not start one
+                _ => format!("θ\u{302}{n}\u{b7}{t}\u{663}"),
             });
             out.push_str(new);
         } else {
@@ -45,7 +47,8 @@ fn map_kind(k: &str, map: &HashMap<String, String>) -> String {
     // RedeclarationError("name")
     if let Some(rest) = k.strip_prefix("RedeclarationError(\"") {
         let name = rest.trim_end_matches("\")");
-        return format!("RedeclarationError(\"{}\")", map.get(name).cloned().unwrap_or(name.to_string()));
+        // (the kind is rendered with Debug, which escapes e.g. combining marks: render the new name the same way)
+        return format!("RedeclarationError({:?})", map.get(name).cloned().unwrap_or(name.to_string()));
     }
     k.to_string()
 }
